@@ -11,6 +11,7 @@
 #define XTL_XSYSTEM_HPP
 
 #if defined(__linux__)
+#  include <limits.h>
 #  include <unistd.h>
 #endif
 #if defined(_WIN32)
@@ -51,12 +52,16 @@ namespace xtl
         std::string path;
 #if defined(UNICODE)
     wchar_t buffer[1024];
+#elif defined(__linux__)
+    // readlink neither terminates the string nor reports truncation:
+    // room for any path up to PATH_MAX plus the terminator
+    char buffer[PATH_MAX + 1];
 #else
     char buffer[1024];
 #endif
         std::memset(buffer, '\0', sizeof(buffer));
 #if defined(__linux__)
-        if (readlink("/proc/self/exe", buffer, sizeof(buffer)) != -1)
+        if (readlink("/proc/self/exe", buffer, sizeof(buffer) - 1) != -1)
         {
             path = buffer;
         }
